@@ -36,3 +36,644 @@ Proof.
   rewrite He. cbn [bind]. split; [reflexivity|]. split; [|exact Hst].
   fold e in Hel. rewrite Hel. destruct c; reflexivity.
 Qed.
+
+(* HASH_KEY on the public key text of a key = its public key hash *)
+Lemma hash_key_agrees P (L : store_laws P) c pk sec pks : length pk = pklen c ->
+  public_key P (mkkey pk sec (curve_tag c)) = Ok pks ->
+  hash_key P pks = public_key_hash P (mkkey pk sec (curve_tag c)).
+Proof.
+  intros Hlen Hpk. rewrite (public_key_text P c pk sec Hlen) in Hpk. injection Hpk as <-.
+  unfold hash_key. rewrite (from_encoded_public P (st_b58 P L) c pk None Hlen). reflexivity.
+Qed.
+
+Lemma public_export_import P (L : store_laws P) c pk sec pass : length pk = pklen c ->
+  exists pks, public_key P (mkkey pk sec (curve_tag c)) = Ok pks /\
+              from_encoded_key P (PS pks) pass = Ok (mkkey pk None (curve_tag c)).
+Proof.
+  intro Hlen. eexists. split; [apply (public_key_text P c pk sec Hlen)|].
+  apply (from_encoded_public P (st_b58 P L) c pk pass Hlen).
+Qed.
+
+(* ------------------------------------------------------------------------------------------- *)
+(* secret key export / import                                                                  *)
+(* ------------------------------------------------------------------------------------------- *)
+
+Definition sk_row (c : curve) (long : bool) : row :=
+  match c with
+  | Ed => if long then mkrow "edsk" 98 "2bf64e07" 64 else mkrow "edsk" 54 "0d0f3a07" 32
+  | Sp => mkrow "spsk" 54 "11a2e0c9" 32
+  | P2 => mkrow "p2sk" 54 "1051eebd" 32
+  | BL => mkrow "BLsk" 54 "0396c028" 32
+  end.
+
+Definition esk_row (c : curve) : row :=
+  match c with
+  | Ed => mkrow "edesk" 88 "075a3cb329" 56
+  | Sp => mkrow "spesk" 88 "09edf1ae96" 56
+  | P2 => mkrow "p2esk" 88 "09303973ab" 56
+  | BL => mkrow "BLesk" 88 "02051e3519" 56
+  end.
+
+Definition sec_row_ok (r : row) (c : curve) (enc : bool) : bool :=
+  bytes_eqb (firstn 2 (r_txt r)) (curve_tag c) &&
+  existsb (Nat.eqb (r_enclen r)) [54; 55; 76; 88; 98] &&
+  Bool.eqb (bytes_eqb (firstn 1 (skipn 2 (r_txt r))) (tx "e")) enc &&
+  bytes_eqb (firstn 2 (skipn (if enc then 3 else 2) (r_txt r))) (tx "sk") &&
+  (5 <=? length (r_txt r) + (if enc then 0 else 1)).
+
+Lemma sk_row_ok c long : sec_row_ok (sk_row c long) c false = true /\ In (sk_row c long) used_rows /\
+  r_txt (sk_row c long) = curve_tag c ++ tx "sk".
+Proof. split; [|split]; [| apply existsb_row_In |]; destruct c, long; vm_compute; reflexivity. Qed.
+
+Lemma esk_row_ok c : sec_row_ok (esk_row c) c true = true /\ In (esk_row c) used_rows /\
+  r_txt (esk_row c) = curve_tag c ++ tx "esk" /\ r_paylen (esk_row c) = 56.
+Proof. split; [|split; [|split]]; [| apply existsb_row_In | |]; destruct c; vm_compute; reflexivity. Qed.
+
+(* what from_encoded_key does with the decoded payload of a secret-key text *)
+Definition import_cont (P : prims) (c : curve) (enc : bool) (p : bytes) (pass : option pyin) : result key :=
+  if enc then
+    match pass with
+    | None => Reject
+    | Some pw =>
+        let* pwb := of_option (pw_bytes pw) in
+        let* sk := of_option (secretbox_open P (skipn 8 p) nonce24 (pbkdf2 P pwb (firstn 8 p))) in
+        from_secret_exponent P (curve_tag c) sk
+    end
+  else from_secret_exponent P (curve_tag c) p.
+
+Lemma mem_curve_tag c : mem_bytes (curve_tag c) [tx "sp"; tx "p2"; tx "ed"; tx "BL"] = true.
+Proof. destruct c; reflexivity. Qed.
+
+Lemma from_encoded_secret P (L : b58_laws P) r c enc p pass :
+  In r used_rows -> sec_row_ok r c enc = true -> length p = r_paylen r ->
+  from_encoded_key P (PS (str_of (b58enc P (r_bin r ++ p)))) pass = import_cont P c enc p pass.
+Proof.
+  intros Hin Hok Hlen.
+  destruct (b58_round P L r p Hin Hlen) as [_ [Hdec [Hel Hst]]].
+  set (e := b58enc P (r_bin r ++ p)) in *.
+  assert (Hscr : scrub_input (PS (str_of e)) = Ok e).
+  { apply (scrub_b58_text r); auto. apply (b58_ascii P L). }
+  unfold sec_row_ok in Hok.
+  apply andb_true_iff in Hok as [Hok T5]. apply andb_true_iff in Hok as [Hok T4].
+  apply andb_true_iff in Hok as [Hok T3]. apply andb_true_iff in Hok as [T1 T2].
+  apply bytes_eqb_eq in T1. apply bytes_eqb_eq in T4. apply Bool.eqb_prop in T3. apply Nat.leb_le in T5.
+  unfold from_encoded_key. rewrite Hscr. cbn [bind].
+  rewrite (starts_with_firstn _ e 2 Hst) by (destruct enc; lia). rewrite T1, mem_curve_tag. cbn [negb].
+  rewrite Hel, T2. cbn [negb].
+  rewrite (skipn_firstn_prefix _ e 2 1 Hst) by (destruct enc; lia). rewrite T3.
+  destruct enc.
+  - rewrite (skipn_firstn_prefix _ e 3 2 Hst) by lia. rewrite T4.
+    change (mem_bytes (tx "sk") [tx "pk"; tx "sk"]) with true. cbn [negb].
+    rewrite Hdec. cbn [bind]. change (bytes_eqb (tx "sk") (tx "sk")) with true. reflexivity.
+  - rewrite (skipn_firstn_prefix _ e 2 2 Hst) by lia. rewrite T4.
+    change (mem_bytes (tx "sk") [tx "pk"; tx "sk"]) with true. cbn [negb].
+    rewrite Hdec. cbn [bind]. change (bytes_eqb (tx "sk") (tx "sk")) with true. reflexivity.
+Qed.
+
+(* the bytes secret_key exports *)
+Definition export_raw (P : prims) (c : curve) (sk : bytes) (ed_seed : bool) : result bytes :=
+  if curve_eqb c Ed && ed_seed then of_option (ed_sk_to_seed P sk) else Ok sk.
+
+Lemma tag_is_ed c : bytes_eqb (curve_tag c) (tx "ed") = curve_eqb c Ed.
+Proof. destruct c; reflexivity. Qed.
+
+Lemma keypair_ed_seed P pk sk se : keypair P Ed se pk sk -> exists seed, ed_seed_keypair P seed = Some (pk, sk).
+Proof. simpl. intros [H | [_ [-> [seed H]]]]; eauto. Qed.
+
+(* importing the exported bytes rebuilds the key *)
+Lemma reimport P (L : store_laws P) c se pk sk ed_seed :
+  keypair P c se pk sk -> (c <> Ed -> length se = 32) ->
+  exists raw, export_raw P c sk ed_seed = Ok raw /\
+              length raw = (if curve_eqb c Ed && negb ed_seed then 64 else 32) /\
+              sk <> [] /\
+              from_secret_exponent P (curve_tag c) raw = Ok (mkkey pk (Some sk) (curve_tag c)).
+Proof.
+  intros Hkp Hlen. unfold export_raw, from_secret_exponent. rewrite curve_of_tag_tag.
+  destruct c.
+  - destruct (keypair_ed_seed P pk sk se Hkp) as [seed Hs].
+    destruct (st_ed P L _ _ _ Hs) as [Hpk [Hseed [L1 [L2 L3]]]].
+    assert (Hne : sk <> []) by (intro E; subst sk; discriminate).
+    destruct ed_seed; cbn [curve_eqb andb negb].
+    + exists seed. rewrite Hseed. split; [reflexivity|]. split; [exact L1|]. split; [exact Hne|].
+      rewrite L1. cbn [Nat.eqb]. rewrite Hs. reflexivity.
+    + exists sk. split; [reflexivity|]. split; [exact L2|]. split; [exact Hne|].
+      rewrite L2. cbn [Nat.eqb]. rewrite Hpk. reflexivity.
+  - destruct Hkp as [H ->]. cbn [curve_eqb andb]. exists se. rewrite H.
+    assert (L1 : length se = 32) by (apply Hlen; discriminate).
+    repeat split; auto. intro E; subst se; discriminate.
+  - destruct Hkp as [H ->]. cbn [curve_eqb andb]. exists se. rewrite H.
+    assert (L1 : length se = 32) by (apply Hlen; discriminate).
+    repeat split; auto. intro E; subst se; discriminate.
+  - destruct Hkp as [H ->]. cbn [curve_eqb andb]. exists se. rewrite H.
+    assert (L1 : length se = 32) by (apply Hlen; discriminate).
+    repeat split; auto. intro E; subst se; discriminate.
+Qed.
+
+Lemma export_import_plain P (L : store_laws P) c se pk sk pass pass' ed_seed salt :
+  keypair P c se pk sk -> (c <> Ed -> length se = 32) -> truthy pass = false ->
+  exists s, secret_key P (mkkey pk (Some sk) (curve_tag c)) pass ed_seed salt = Ok s /\
+            from_encoded_key P (PS s) pass' = Ok (mkkey pk (Some sk) (curve_tag c)).
+Proof.
+  intros Hkp Hlen Hpass.
+  destruct (reimport P L c se pk sk ed_seed Hkp Hlen) as [raw [Hraw [Hl [Hne Himp]]]].
+  set (r := sk_row c (curve_eqb c Ed && negb ed_seed)).
+  destruct (sk_row_ok c (curve_eqb c Ed && negb ed_seed)) as [Hok [Hin Htxt]]. fold r in Hok, Hin, Htxt.
+  assert (Hpl : length raw = r_paylen r).
+  { rewrite Hl. unfold r. destruct c, ed_seed; reflexivity. }
+  exists (str_of (b58enc P (r_bin r ++ raw))). split.
+  - unfold secret_key. rewrite (secret_of_some pk sk _ Hne). cbn [ktag mkkey].
+    rewrite tag_is_ed. fold (export_raw P c sk ed_seed). rewrite Hraw. cbn [bind]. rewrite Hpass.
+    rewrite <- Htxt. rewrite (find_enc P r raw Hin Hpl). reflexivity.
+  - rewrite (from_encoded_secret P (st_b58 P L) r c false raw pass' Hin Hok Hpl). exact Himp.
+Qed.
+
+Lemma truthy_some pass : truthy pass = true -> exists p, pass = Some p.
+Proof. destruct pass as [p|]; [eauto | discriminate]. Qed.
+
+Lemma export_import_encrypted P (L : store_laws P) c se pk sk p p' w salt :
+  keypair P c se pk sk -> (c <> Ed -> length se = 32) -> length salt = 8 ->
+  truthy (Some p) = true -> pw_bytes p = Some w -> pw_bytes p' = Some w ->
+  exists s, secret_key P (mkkey pk (Some sk) (curve_tag c)) (Some p) true salt = Ok s /\
+            from_encoded_key P (PS s) (Some p') = Ok (mkkey pk (Some sk) (curve_tag c)).
+Proof.
+  intros Hkp Hlen Hsalt Hpass Hw Hw'.
+  destruct (reimport P L c se pk sk true Hkp Hlen) as [raw [Hraw [Hl [Hne Himp]]]].
+  rewrite andb_false_r in Hl.
+  destruct (st_box P L raw nonce24 (pbkdf2 P w salt)) as [cph [Hbox [Hcl Hopen]]].
+  destruct (esk_row_ok c) as [Hok [Hin [Htxt Hpay]]].
+  assert (Hpl : length (salt ++ cph) = r_paylen (esk_row c)).
+  { rewrite app_length, Hsalt, Hcl, Hl, Hpay. reflexivity. }
+  exists (str_of (b58enc P (r_bin (esk_row c) ++ (salt ++ cph)))). split.
+  - unfold secret_key. rewrite (secret_of_some pk sk _ Hne). cbn [ktag mkkey].
+    rewrite tag_is_ed. fold (export_raw P c sk true). rewrite Hraw. cbn [bind]. rewrite Hpass. cbn [negb].
+    rewrite Hw. cbn [of_option bind]. rewrite Hbox. cbn [of_option bind].
+    rewrite <- Htxt. rewrite (find_enc P (esk_row c) (salt ++ cph) Hin Hpl). reflexivity.
+  - rewrite (from_encoded_secret P (st_b58 P L) (esk_row c) c true (salt ++ cph) (Some p') Hin Hok Hpl).
+    unfold import_cont. rewrite Hw'. cbn [of_option bind].
+    rewrite (firstn_app_len 8 salt cph Hsalt), (skipn_app_len 8 salt cph Hsalt), Hopen. cbn [of_option bind].
+    exact Himp.
+Qed.
+
+(* ------------------------------------------------------------------------------------------- *)
+(* positional numerals                                                                         *)
+(* ------------------------------------------------------------------------------------------- *)
+
+Local Open Scope N_scope.
+
+Definition valacc (b acc : N) (l : digs) : N := fold_left (fun a d => a * b + d) l acc.
+
+Lemma valacc_spec b l : forall acc, valacc b acc l = acc * b ^ N.of_nat (length l) + val b l.
+Proof.
+  unfold val. fold (valacc b 0 l).
+  induction l as [|d l IH]; intro acc.
+  - simpl. lia.
+  - cbn [valacc fold_left length]. fold (valacc b (acc * b + d) l). fold (valacc b (0 * b + d) l).
+    rewrite (IH (acc * b + d)), (IH (0 * b + d)).
+    rewrite Nat2N.inj_succ, N.pow_succ_r'. ring.
+Qed.
+
+Lemma val_nil b : val b [] = 0.
+Proof. reflexivity. Qed.
+
+Lemma val_cons b d l : val b (d :: l) = d * b ^ N.of_nat (length l) + val b l.
+Proof.
+  unfold val at 1. cbn [fold_left]. fold (valacc b (0 * b + d) l). rewrite valacc_spec. lia.
+Qed.
+
+Lemma val_app b l1 l2 : val b (l1 ++ l2) = val b l1 * b ^ N.of_nat (length l2) + val b l2.
+Proof.
+  unfold val at 1. rewrite fold_left_app. fold (val b l1). fold (valacc b (val b l1) l2).
+  apply valacc_spec.
+Qed.
+
+Lemma val_single b d : val b [d] = d.
+Proof. rewrite val_cons. cbn [length]. change (N.of_nat 0) with 0. rewrite N.pow_0_r, val_nil. lia. Qed.
+
+Definition below (b : N) (l : digs) : Prop := Forall (fun d => d < b) l.
+
+Lemma val_bound b l : below b l -> val b l < b ^ N.of_nat (length l).
+Proof.
+  induction 1 as [|d l Hd Hl IH].
+  - rewrite val_nil. change (N.of_nat (length (@nil N))) with 0. rewrite N.pow_0_r. lia.
+  - rewrite val_cons. cbn [length]. rewrite Nat2N.inj_succ, N.pow_succ_r'. nia.
+Qed.
+
+Lemma val_unique b l1 : forall l2, length l1 = length l2 -> below b l1 -> below b l2 ->
+  val b l1 = val b l2 -> l1 = l2.
+Proof.
+  induction l1 as [|d1 l1 IH]; intros [|d2 l2] Hlen H1 H2 Hv; try discriminate; [reflexivity|].
+  injection Hlen as Hlen. inversion H1 as [|? ? Hd1 Hl1]; subst. inversion H2 as [|? ? Hd2 Hl2]; subst.
+  rewrite !val_cons in Hv. rewrite Hlen in Hv.
+  pose proof (val_bound b l1 Hl1) as B1. pose proof (val_bound b l2 Hl2) as B2. rewrite Hlen in B1.
+  set (X := b ^ N.of_nat (length l2)) in *.
+  assert (E : d1 = d2) by nia.
+  subst d2. f_equal. apply IH; auto. lia.
+Qed.
+
+Lemma below_app b l1 l2 : below b l1 -> below b l2 -> below b (l1 ++ l2).
+Proof. apply Forall_app_intro || (intros; apply Forall_app; split; assumption). Qed.
+
+(* ---- fixed-width numerals ---- *)
+
+Lemma fixed_length b w : forall n, length (fixed b w n) = w.
+Proof. induction w as [|w IH]; intro n; simpl; [reflexivity|]. rewrite app_length, IH. simpl. lia. Qed.
+
+Lemma fixed_below b w : b <> 0 -> forall n, below b (fixed b w n).
+Proof.
+  intro Hb. induction w as [|w IH]; intro n; simpl; [constructor|].
+  apply Forall_app. split; [apply IH|]. constructor; [|constructor]. apply N.mod_lt. exact Hb.
+Qed.
+
+Lemma fixed_val b w : b <> 0 -> forall n, val b (fixed b w n) = n mod b ^ N.of_nat w.
+Proof.
+  intro Hb. induction w as [|w IH]; intro n.
+  - simpl. rewrite N.mod_1_r. reflexivity.
+  - cbn [fixed]. rewrite val_app, IH, val_single.
+    change (N.of_nat (length [n mod b])) with 1. rewrite N.pow_1_r.
+    rewrite Nat2N.inj_succ, N.pow_succ_r'.
+    rewrite (N.mod_mul_r n b (b ^ N.of_nat w)) by (auto; apply N.pow_nonzero; exact Hb).
+    lia.
+Qed.
+
+(* ---- minimal numerals ---- *)
+
+Lemma digits_le_spec b : 2 <= b -> forall fuel n, n < 2 ^ N.of_nat fuel ->
+  val b (rev (digits_le b fuel n)) = n /\ below b (digits_le b fuel n).
+Proof.
+  intros Hb. induction fuel as [|f IH]; intros n Hn.
+  - simpl in Hn. assert (n = 0) by lia. subst. simpl. split; [reflexivity | constructor].
+  - cbn [digits_le]. destruct (N.eqb_spec n 0) as [->|Hnz].
+    + split; [reflexivity | constructor].
+    + assert (Hdiv : n / b < 2 ^ N.of_nat f).
+      { rewrite Nat2N.inj_succ, N.pow_succ_r' in Hn.
+        apply N.div_lt_upper_bound; [lia|]. nia. }
+      destruct (IH (n / b) Hdiv) as [Hv Hbel]. split.
+      * cbn [rev]. rewrite val_app, val_single, Hv. change (N.of_nat (length [n mod b])) with 1.
+        rewrite N.pow_1_r. rewrite (N.div_mod n b) at 3 by lia. lia.
+      * constructor; [apply N.mod_lt; lia | exact Hbel].
+Qed.
+
+Lemma digits_le_length b : 2 <= b -> forall fuel n w, n < b ^ N.of_nat w -> (length (digits_le b fuel n) <= w)%nat.
+Proof.
+  intro Hb. induction fuel as [|f IH]; intros n w Hn; [simpl; lia|].
+  cbn [digits_le]. destruct (N.eqb_spec n 0) as [->|Hnz]; [simpl; lia|].
+  destruct w as [|w]; [simpl in Hn; lia|].
+  cbn [length]. apply le_n_S. apply IH.
+  rewrite Nat2N.inj_succ, N.pow_succ_r' in Hn. apply N.div_lt_upper_bound; [lia | exact Hn].
+Qed.
+
+Lemma digits_spec b n : 2 <= b -> val b (digits b n) = n /\ below b (digits b n).
+Proof.
+  intro Hb. unfold digits. destruct (N.eqb_spec n 0) as [->|Hnz].
+  - split; [reflexivity|]. constructor; [lia | constructor].
+  - assert (Hn : n < 2 ^ N.of_nat (N.to_nat (N.size n))) by (rewrite N2Nat.id; apply N.size_gt).
+    destruct (digits_le_spec b Hb _ n Hn) as [Hv Hbel]. split; [exact Hv|].
+    unfold below. apply Forall_rev. exact Hbel.
+Qed.
+
+Lemma digits_length b n w : 2 <= b -> (1 <= w)%nat -> n < b ^ N.of_nat w -> (length (digits b n) <= w)%nat.
+Proof.
+  intros Hb Hw Hn. unfold digits. destruct (N.eqb_spec n 0) as [->|Hnz]; [simpl; lia|].
+  rewrite rev_length. apply digits_le_length; assumption.
+Qed.
+
+Lemma val_repeat0 b k : val b (repeat 0 k) = 0.
+Proof. induction k as [|k IH]; [reflexivity|]. cbn [repeat]. rewrite val_cons, IH. lia. Qed.
+
+Lemma below_repeat0 b k : 0 < b -> below b (repeat 0 k).
+Proof. intro Hb. induction k; simpl; constructor; auto. Qed.
+
+(* str(n, base b).zfill(w) is the w-digit numeral when n < b^w *)
+Lemma zfill_digits b w n : 2 <= b -> (1 <= w)%nat -> n < b ^ N.of_nat w -> zfill w (digits b n) = fixed b w n.
+Proof.
+  intros Hb Hw Hn. destruct (digits_spec b n Hb) as [Hv Hbel].
+  pose proof (digits_length b n w Hb Hw Hn) as Hl.
+  apply (val_unique b).
+  - unfold zfill. rewrite app_length, repeat_length, fixed_length. lia.
+  - unfold zfill. apply Forall_app. split; [apply below_repeat0; lia | exact Hbel].
+  - apply fixed_below. lia.
+  - unfold zfill. rewrite val_app, val_repeat0, Hv, fixed_val by lia. rewrite N.mod_small by exact Hn. lia.
+Qed.
+
+(* ---- bytes ---- *)
+
+Lemma be_to_N_acc_val l : forall acc, be_to_N_acc acc l = valacc 256 acc (map Byte.to_N l).
+Proof. induction l as [|x l IH]; intro acc; [reflexivity|]. simpl. rewrite IH. reflexivity. Qed.
+
+Lemma be_to_N_val l : be_to_N l = val 256 (map Byte.to_N l).
+Proof. apply be_to_N_acc_val. Qed.
+
+Lemma below_bytes l : below 256 (map Byte.to_N l).
+Proof. induction l; simpl; constructor; auto. apply to_N_lt_256. Qed.
+
+Lemma map_to_N_inj a : forall b, map Byte.to_N a = map Byte.to_N b -> a = b.
+Proof.
+  induction a as [|x a IH]; intros [|y b] H; try discriminate; [reflexivity|].
+  injection H as H1 H2. apply to_N_inj in H1. subst. f_equal. auto.
+Qed.
+
+Lemma bytes_unique a b : length a = length b -> be_to_N a = be_to_N b -> a = b.
+Proof.
+  intros Hl Hv. apply map_to_N_inj. apply (val_unique 256).
+  - rewrite !map_length. exact Hl.
+  - apply below_bytes.
+  - apply below_bytes.
+  - rewrite <- !be_to_N_val. exact Hv.
+Qed.
+
+Lemma pow_2_8 k : 2 ^ N.of_nat (8 * k) = 256 ^ N.of_nat k.
+Proof.
+  rewrite Nat2N.inj_mul. change (N.of_nat 8) with 8. rewrite N.pow_mul_r. reflexivity.
+Qed.
+
+Lemma pow_16_2 k : 16 ^ N.of_nat (2 * k) = 256 ^ N.of_nat k.
+Proof.
+  rewrite Nat2N.inj_mul. change (N.of_nat 2) with 2. rewrite N.pow_mul_r. reflexivity.
+Qed.
+
+Lemma bytes_bits_length e : length (bytes_bits e) = (8 * length e)%nat.
+Proof.
+  induction e as [|x e IH]; [reflexivity|]. unfold bytes_bits in *. cbn [flat_map].
+  rewrite app_length, IH, fixed_length. simpl. lia.
+Qed.
+
+Lemma bytes_bits_below e : below 2 (bytes_bits e).
+Proof.
+  induction e as [|x e IH]; [constructor|]. unfold bytes_bits in *. cbn [flat_map].
+  apply Forall_app. split; [apply fixed_below; lia | exact IH].
+Qed.
+
+Lemma bytes_bits_val e : val 2 (bytes_bits e) = be_to_N e.
+Proof.
+  induction e as [|x e IH]; [reflexivity|].
+  rewrite be_to_N_val. cbn [map]. rewrite val_cons, map_length, <- be_to_N_val.
+  unfold bytes_bits in *. cbn [flat_map]. rewrite val_app, IH, fixed_val by lia.
+  fold (bytes_bits e). rewrite bytes_bits_length, pow_2_8.
+  change (2 ^ N.of_nat 8) with 256. rewrite N.mod_small by apply to_N_lt_256. reflexivity.
+Qed.
+
+Lemma bytes_bits_inj a b : bytes_bits a = bytes_bits b -> a = b.
+Proof.
+  intro H. apply bytes_unique.
+  - pose proof (f_equal (@length N) H) as Hl. rewrite !bytes_bits_length in Hl. lia.
+  - rewrite <- !bytes_bits_val, H. reflexivity.
+Qed.
+
+(* unhexlify of 2k hex digits: k bytes with the same value *)
+Lemma unhexlify_spec k : forall l, length l = (2 * k)%nat -> below 16 l ->
+  exists bs, unhexlify l = Some bs /\ length bs = k /\ be_to_N bs = val 16 l.
+Proof.
+  induction k as [|k IH]; intros l Hl Hb.
+  - destruct l; [|discriminate]. exists []. auto.
+  - destruct l as [|a [|c r]]; try (simpl in Hl; lia).
+    inversion Hb as [|? ? Ha Hb']; subst. inversion Hb' as [|? ? Hc Hr]; subst.
+    assert (Hlr : length r = (2 * k)%nat) by (simpl in Hl; lia).
+    destruct (IH r Hlr Hr) as [bs [Hu [Hlen Hv]]].
+    exists (b8 (16 * a + c) :: bs). cbn [unhexlify]. rewrite Hu. split; [reflexivity|]. split; [simpl; lia|].
+    rewrite be_to_N_val. cbn [map]. rewrite val_cons, map_length, <- be_to_N_val, Hv, Hlen.
+    rewrite to_N_b8, N.mod_small by lia.
+    rewrite !val_cons. cbn [length]. rewrite Hlr.
+    replace (S (2 * k)) with (2 * k + 1)%nat by lia.
+    rewrite Nat2N.inj_add, N.pow_add_r, pow_16_2. change (N.of_nat 1) with 1. rewrite N.pow_1_r. lia.
+Qed.
+
+(* ------------------------------------------------------------------------------------------- *)
+(* validate_mnemonic's string manipulations = the BIP-39 checksum rule                         *)
+(* ------------------------------------------------------------------------------------------- *)
+
+Lemma div33 k : ((33 * k) / 33 = k /\ (33 * k + 32) / 33 = k)%nat.
+Proof.
+  split.
+  - rewrite Nat.mul_comm. apply Nat.div_mul. discriminate.
+  - symmetry. apply (Nat.div_unique _ 33 k 32); lia.
+Qed.
+
+Lemma below_firstn b n l : below b l -> below b (firstn n l).
+Proof.
+  unfold below. intro H. revert n. induction H as [|x l Hx Hl IH]; intros [|n]; simpl; try constructor; auto.
+Qed.
+
+(* bin(int(digest.hex(), 16))[2:].zfill(256) is the bit string of a 32-byte digest *)
+Lemma bits_of_digest dg : length dg = 32%nat -> zfill 256 (digits 2 (be_to_N dg)) = bytes_bits dg.
+Proof.
+  intro Hl.
+  assert (Hb : be_to_N dg < 2 ^ N.of_nat 256).
+  { rewrite <- bytes_bits_val. pose proof (val_bound 2 _ (bytes_bits_below dg)) as B.
+    rewrite bytes_bits_length, Hl in B. exact B. }
+  rewrite zfill_digits by (try lia; exact Hb).
+  apply (val_unique 2).
+  - rewrite fixed_length, bytes_bits_length, Hl. reflexivity.
+  - apply fixed_below. lia.
+  - apply bytes_bits_below.
+  - rewrite fixed_val by lia. rewrite N.mod_small by exact Hb. symmetry. apply bytes_bits_val.
+Qed.
+
+Lemma pow_2_16 k : 2 ^ N.of_nat (32 * k) = 16 ^ N.of_nat (8 * k).
+Proof.
+  replace (32 * k)%nat with (8 * (4 * k))%nat by lia. replace (8 * k)%nat with (2 * (4 * k))%nat by lia.
+  rewrite pow_2_8, pow_16_2. reflexivity.
+Qed.
+
+Lemma check_bits_char P (Hsha : forall x, length (sha256 P x) = 32%nat) k b :
+  (1 <= k <= 8)%nat -> length b = (33 * k)%nat -> below 2 b ->
+  exists nd, length nd = (4 * k)%nat /\ bytes_bits nd = firstn (32 * k) b /\
+    check_bits P b = list_eqb N.eqb (skipn (32 * k) b) (firstn k (bytes_bits (sha256 P nd))).
+Proof.
+  intros Hk Hlen Hb. unfold check_bits. rewrite Hlen.
+  destruct (div33 k) as [D1 D2]. rewrite D1, D2.
+  replace (k * 32)%nat with (32 * k)%nat by lia. replace (k * 8)%nat with (8 * k)%nat by lia.
+  replace (33 * k - k)%nat with (32 * k)%nat by lia.
+  set (d := firstn (32 * k) b).
+  assert (Hdl : length d = (32 * k)%nat) by (unfold d; rewrite firstn_length, Hlen; lia).
+  assert (Hdb : below 2 d) by (apply below_firstn; exact Hb).
+  assert (Hv : val 2 d < 16 ^ N.of_nat (8 * k)).
+  { rewrite <- pow_2_16, <- Hdl. apply val_bound. exact Hdb. }
+  rewrite (zfill_digits 16 (8 * k) (val 2 d)) by (try lia; exact Hv).
+  destruct (unhexlify_spec (4 * k) (fixed 16 (8 * k) (val 2 d))) as [nd [Hu [Hnl Hnv]]].
+  { rewrite fixed_length. lia. }
+  { apply fixed_below. lia. }
+  rewrite fixed_val in Hnv by lia. rewrite N.mod_small in Hnv by exact Hv.
+  assert (Hbits : bytes_bits nd = d).
+  { apply (val_unique 2).
+    - rewrite bytes_bits_length, Hnl, Hdl. lia.
+    - apply bytes_bits_below.
+    - exact Hdb.
+    - rewrite bytes_bits_val. exact Hnv. }
+  exists nd. split; [exact Hnl|]. split; [exact Hbits|].
+  destruct d as [|x d'] eqn:Ed; [simpl in Hdl; lia|].
+  rewrite Hu. rewrite (bits_of_digest _ (Hsha nd)). reflexivity.
+Qed.
+
+Lemma N_list_eqb_eq (a b : list N) : list_eqb N.eqb a b = true <-> a = b.
+Proof. apply list_eqb_spec. intros x y. apply N.eqb_eq. Qed.
+
+Lemma check_bits_iff P (Hsha : forall x, length (sha256 P x) = 32%nat) k b :
+  (1 <= k <= 8)%nat -> length b = (33 * k)%nat -> below 2 b ->
+  (check_bits P b = true <->
+   exists e, length e = (4 * k)%nat /\ b = bytes_bits e ++ firstn k (bytes_bits (sha256 P e))).
+Proof.
+  intros Hk Hlen Hb.
+  destruct (check_bits_char P Hsha k b Hk Hlen Hb) as [nd [Hnl [Hbits Hc]]].
+  rewrite Hc, N_list_eqb_eq. split.
+  - intro H. exists nd. split; [exact Hnl|]. rewrite Hbits, <- H. symmetry. apply firstn_skipn.
+  - intros [e [Hel He]].
+    assert (Hbl : length (bytes_bits e) = (32 * k)%nat) by (rewrite bytes_bits_length, Hel; lia).
+    assert (E : nd = e).
+    { apply bytes_bits_inj. rewrite Hbits. rewrite He at 1. apply (firstn_app_len _ _ _ Hbl). }
+    subst nd. rewrite He at 1. apply (skipn_app_len _ _ _ Hbl).
+Qed.
+
+Lemma flat_bits11 idx : Forall (fun i => i < 2048) idx -> flat_map bits11 idx = flat_map (fixed 2 11) idx.
+Proof.
+  induction 1 as [|i idx Hi _ IH]; [reflexivity|]. cbn [flat_map]. rewrite IH. f_equal.
+  unfold bits11. apply zfill_digits; try lia; exact Hi.
+Qed.
+
+Lemma flat_fixed_length idx : length (flat_map (fixed 2 11) idx) = (11 * length idx)%nat.
+Proof.
+  induction idx as [|i idx IH]; [reflexivity|]. cbn [flat_map length]. rewrite app_length, fixed_length, IH. lia.
+Qed.
+
+Lemma flat_fixed_below idx : below 2 (flat_map (fixed 2 11) idx).
+Proof.
+  induction idx as [|i idx IH]; [constructor|]. cbn [flat_map]. apply Forall_app. split; [apply fixed_below; lia | exact IH].
+Qed.
+
+Lemma mnemonic_check_k P (Hsha : forall x, length (sha256 P x) = 32%nat) k idx :
+  (1 <= k <= 8)%nat -> Forall (fun i => i < 2048) idx -> length idx = (3 * k)%nat ->
+  (mnemonic_check P idx = true <->
+   exists e, length e = (4 * k)%nat /\
+             flat_map (fixed 2 11) idx = bytes_bits e ++ firstn k (bytes_bits (sha256 P e))).
+Proof.
+  intros Hk Hidx Hlen. unfold mnemonic_check. rewrite (flat_bits11 idx Hidx).
+  apply check_bits_iff; auto.
+  - rewrite flat_fixed_length, Hlen. lia.
+  - apply flat_fixed_below.
+Qed.
+
+Lemma words_of_entropy P (Hsha : forall x, length (sha256 P x) = 32%nat) k idx e :
+  (k <= 256)%nat -> length e = (4 * k)%nat ->
+  flat_map (fixed 2 11) idx = bytes_bits e ++ firstn k (bytes_bits (sha256 P e)) ->
+  length idx = (3 * k)%nat.
+Proof.
+  intros Hk Hel H. apply (f_equal (@length N)) in H.
+  rewrite flat_fixed_length, app_length, bytes_bits_length, firstn_length, bytes_bits_length, Hsha, Hel in H. lia.
+Qed.
+
+Lemma mnemonic_iff P (Hsha : forall x, length (sha256 P x) = 32%nat) idx :
+  Forall (fun i => i < 2048) idx ->
+  (existsb (Nat.eqb (length idx)) valid_word_counts = true /\ mnemonic_check P idx = true) <-> bip39_valid P idx.
+Proof.
+  intro Hidx. unfold bip39_valid, bip39_bits. split.
+  - intros [Hcnt Hchk]. apply existsb_exists in Hcnt as [n [Hn En]]. apply Nat.eqb_eq in En. subst n.
+    assert (Hk : exists k, (1 <= k <= 8)%nat /\ (4 <= k)%nat /\ length idx = (3 * k)%nat).
+    { simpl in Hn. destruct Hn as [H|[H|[H|[H|[H|[]]]]]];
+        [exists 4%nat | exists 5%nat | exists 6%nat | exists 7%nat | exists 8%nat]; lia. }
+    destruct Hk as [k [Hk [Hk4 Hlen]]].
+    destruct (proj1 (mnemonic_check_k P Hsha k idx Hk Hidx Hlen) Hchk) as [e [Hel He]].
+    exists e. split.
+    + rewrite Hel. simpl. lia.
+    + rewrite He, Hel. replace (4 * k / 4)%nat with k; [reflexivity|].
+      rewrite Nat.mul_comm, Nat.div_mul; [reflexivity | discriminate].
+  - intros [e [Hin He]].
+    assert (Hk : exists k, (1 <= k <= 8)%nat /\ length e = (4 * k)%nat).
+    { simpl in Hin. destruct Hin as [H|[H|[H|[H|[H|[]]]]]];
+        [exists 4%nat | exists 5%nat | exists 6%nat | exists 7%nat | exists 8%nat]; lia. }
+    destruct Hk as [k [Hk Hel]].
+    assert (Hq : (length e / 4)%nat = k).
+    { rewrite Hel, Nat.mul_comm, Nat.div_mul; [reflexivity | discriminate]. }
+    rewrite Hq in He.
+    assert (Hlen : length idx = (3 * k)%nat) by (apply (words_of_entropy P Hsha k idx e); auto; lia).
+    split.
+    + apply existsb_exists. exists (length idx). split; [|apply Nat.eqb_refl].
+      rewrite Hlen. simpl in Hin. simpl. lia.
+    + apply (mnemonic_check_k P Hsha k idx Hk Hidx Hlen). exists e. auto.
+Qed.
+
+Close Scope N_scope.
+
+(* validate_mnemonic as a whole: word count, word list lookup, checksum *)
+Lemma validate_mnemonic_spec P mn :
+  validate_mnemonic P mn = Ok tt <->
+  exists idx, all_some (map (word_index P) (nf_split P mn)) = Some idx /\
+              existsb (Nat.eqb (length (nf_split P mn))) valid_word_counts = true /\
+              mnemonic_check P idx = true.
+Proof.
+  unfold validate_mnemonic. split.
+  - destruct (existsb _ valid_word_counts) eqn:E; cbn [negb]; [|discriminate].
+    destruct (all_some _) as [idx|]; [|discriminate].
+    destruct (mnemonic_check P idx) eqn:C; [|discriminate]. intros _. exists idx. auto.
+  - intros [idx [Ha [Hc Hm]]]. rewrite Hc, Ha, Hm. reflexivity.
+Qed.
+
+Lemma all_some_length {A} (l : list (option A)) r : all_some l = Some r -> length r = length l.
+Proof.
+  revert r. induction l as [|[a|] l IH]; intros r H; simpl in H; try discriminate.
+  - injection H as <-. reflexivity.
+  - destruct (all_some l) as [t|]; [|discriminate]. injection H as <-. simpl. f_equal. apply IH. reflexivity.
+Qed.
+
+Lemma all_some_forall {A} (Q : A -> Prop) (l : list (option A)) r :
+  (forall a, In (Some a) l -> Q a) -> all_some l = Some r -> Forall Q r.
+Proof.
+  revert r. induction l as [|[a|] l IH]; intros r HQ H; simpl in H; try discriminate.
+  - injection H as <-. constructor.
+  - destruct (all_some l) as [t|] eqn:E; [|discriminate]. injection H as <-.
+    constructor; [apply HQ; left; reflexivity | apply IH; auto]. intros x Hx. apply HQ. right. exact Hx.
+Qed.
+
+Lemma validate_mnemonic_bip39 P mn :
+  (forall x, length (sha256 P x) = 32) -> (forall w i, word_index P w = Some i -> (i < 2048)%N) ->
+  (validate_mnemonic P mn = Ok tt <->
+   exists idx, all_some (map (word_index P) (nf_split P mn)) = Some idx /\ bip39_valid P idx).
+Proof.
+  intros Hsha Hwl. rewrite validate_mnemonic_spec. split.
+  - intros [idx [Ha [Hc Hm]]]. exists idx. split; [exact Ha|].
+    assert (Hidx : Forall (fun i => (i < 2048)%N) idx).
+    { apply (all_some_forall _ _ _ (fun a Hin => match proj1 (in_map_iff _ _ _) Hin with ex_intro _ w (conj Hw _) => Hwl w a Hw end) Ha). }
+    apply (mnemonic_iff P Hsha idx Hidx). split; [|exact Hm].
+    rewrite (all_some_length _ _ Ha), map_length. exact Hc.
+  - intros [idx [Ha Hv]]. exists idx. split; [exact Ha|].
+    assert (Hidx : Forall (fun i => (i < 2048)%N) idx).
+    { apply (all_some_forall _ _ _ (fun a Hin => match proj1 (in_map_iff _ _ _) Hin with ex_intro _ w (conj Hw _) => Hwl w a Hw end) Ha). }
+    destruct (proj2 (mnemonic_iff P Hsha idx Hidx) Hv) as [Hc Hm]. split; [|exact Hm].
+    rewrite (all_some_length _ _ Ha), map_length in Hc. exact Hc.
+Qed.
+
+(* ------------------------------------------------------------------------------------------- *)
+(* from_mnemonic is a function of the seed                                                     *)
+(* ------------------------------------------------------------------------------------------- *)
+
+(* the key built from the first 32 bytes of a seed *)
+Definition key_of_seed (P : prims) (tag seed : bytes) : result key :=
+  let* se :=
+    match curve_of_tag tag with
+    | Some Ed => match ed_seed_keypair P (firstn 32 seed) with Some (_, sk) => Ok sk | None => Reject end
+    | Some _ => Ok (firstn 32 seed)
+    | None => Reject
+    end in
+  from_secret_exponent P tag se.
+
+Lemma from_mnemonic_of_seed P mn pw em v tag k :
+  from_mnemonic P mn pw em v tag = Ok k ->
+  exists seed, to_seed P (mn_string mn) (em ++ pw) = Some seed /\ key_of_seed P tag seed = Ok k /\
+               (v = true -> validate_mnemonic P (mn_string mn) = Ok tt).
+Proof.
+  unfold from_mnemonic. intro H.
+  destruct v.
+  - destruct (validate_mnemonic P (mn_string mn)) as [[]|] eqn:V; [|discriminate]. cbn [bind] in H.
+    destruct (to_seed P (mn_string mn) (em ++ pw)) as [seed|]; [|discriminate]. cbn [of_option bind] in H.
+    exists seed. auto.
+  - cbn [bind] in H.
+    destruct (to_seed P (mn_string mn) (em ++ pw)) as [seed|]; [|discriminate]. cbn [of_option bind] in H.
+    exists seed. split; [reflexivity|]. split; [exact H | discriminate].
+Qed.
+
+Lemma from_mnemonic_deterministic P mn mn' pw pw' em em' v v' tag :
+  mn_string mn = mn_string mn' -> em ++ pw = em' ++ pw' ->
+  (v = v' \/ (validate_mnemonic P (mn_string mn) = Ok tt)) ->
+  from_mnemonic P mn pw em v tag = from_mnemonic P mn' pw' em' v' tag.
+Proof.
+  intros Hm Hp Hv. unfold from_mnemonic. rewrite <- Hm, <- Hp.
+  destruct Hv as [<-|Hv]; [reflexivity|]. rewrite Hv. destruct v, v'; reflexivity.
+Qed.
